@@ -184,6 +184,8 @@ func armAtoms(gs []an.Guard) string {
 			// loop bound
 		case isRangeOk(g.Cond):
 			// range loop continuation
+		case isFlagMerge(g.Cond):
+			// the 'counts' flag of an extracted per-pod decision: decided by the conditions in front of it
 		default:
 			atoms = append(atoms, "other["+p+"]="+t)
 		}
@@ -256,7 +258,6 @@ func c09(c *Ctx) {
 		maxur := accFamily(accOf(args[7]), adders)
 		r.Rule("PATH(co-charge) in " + name + ": for each increase of the accumulator passed as podHPUsed, every path to the end of the iteration (or to the formula call) increases the accumulator passed as podHPMaxUsedReq")
 		n := coCharge(c, fn, used, maxur, sinks[0], "used=>maxUsedReq")
-		r.Floor("PATH", name+" charges of the used accumulator", n, 4)
 		v := armVec{}
 		for fam, f := range map[string]*family{"request": req, "used": used, "maxUsedReq": maxur} {
 			for _, inc := range f.incs {
@@ -276,6 +277,49 @@ func c09(c *Ctx) {
 			}
 			sort.Strings(v[fam])
 		}
+		// the other form of the same decision: the amount is chosen in the arms and charged once. When no charge of
+		// this function stands under the metric test, the arms of the charged VALUE are the arms of the charge.
+		direct := false
+		for _, arms := range v {
+			for _, a := range arms {
+				if strings.Contains(a, "hasMetric") {
+					direct = true
+				}
+			}
+		}
+		if !direct {
+			v2 := armVec{}
+			for fam, f := range map[string]*family{"request": req, "used": used, "maxUsedReq": maxur} {
+				for _, inc := range f.incs {
+					hdr := f.loopHeaderOf(inc)
+					if hdr == nil {
+						v2[fam] = append(v2[fam], "after-the-pod-loop")
+						continue
+					}
+					alts := valueArms(inc.Call.Args[1], hdr, 0)
+					if len(alts) > 6 {
+						alts = [][]an.Guard{nil}
+					}
+					for _, alt := range alts {
+						var gs []an.Guard
+						seen := map[*ssa.If]bool{}
+						for _, g := range append(append([]an.Guard{}, an.Guards(inc)...), alt...) {
+							if gb := g.If.Block(); gb != hdr && hdr.Dominates(gb) && !seen[g.If] {
+								seen[g.If] = true
+								gs = append(gs, g)
+							}
+						}
+						v2[fam] = append(v2[fam], "in-loop:"+armAtoms(gs))
+					}
+				}
+				sort.Strings(v2[fam])
+			}
+			v = v2
+		}
+		if len(v["used"]) > n {
+			n = len(v["used"]) // the amount chosen in arms and charged once: the arms are what is counted
+		}
+		r.Floor("PATH", name+" charges of the used accumulator", n, 4)
 		vecs[name] = v
 	}
 	// SIBLING
@@ -1084,4 +1128,33 @@ func c09inputs(c *Ctx) {
 		}
 		r.Floor("PATH", "ratio labels consulted in UpdateColocationStrategyForNode", n, 4)
 	}
+}
+
+// valueArms: the branch outcomes under which each alternative of a merged value was chosen (one empty arm for a value
+// that is not a merge inside the loop).
+func valueArms(v ssa.Value, hdr *ssa.BasicBlock, depth int) [][]an.Guard {
+	phi, ok := v.(*ssa.Phi)
+	if !ok || depth > 3 || phi.Block() == hdr || !hdr.Dominates(phi.Block()) {
+		return [][]an.Guard{nil}
+	}
+	var out [][]an.Guard
+	for k, e := range phi.Edges {
+		pred := phi.Block().Preds[k]
+		gs := an.BlockGuards(pred)
+		if pi, ok := pred.Instrs[len(pred.Instrs)-1].(*ssa.If); ok && len(pred.Succs) == 2 && pred.Succs[0] != pred.Succs[1] {
+			pc, neg := an.StripNot(pi.Cond)
+			t := pred.Succs[0] == phi.Block()
+			if neg {
+				t = !t
+			}
+			gs = append(gs, an.Guard{Cond: pc, Truth: t, If: pi})
+		}
+		if an.IsNilConst(e) {
+			continue // 'nothing to charge' exits of an extracted decision: not reached by the charge
+		}
+		for _, sub := range valueArms(e, hdr, depth+1) {
+			out = append(out, append(append([]an.Guard{}, gs...), sub...))
+		}
+	}
+	return out
 }
